@@ -183,6 +183,96 @@ def main():
             break
     classes["bind_cases"] = nb
 
+    # inequality variables (sheens `Inequalities: true`, switched on by core.DefaultMatcher): a variable named "?<n", "?<=n", "?>n",
+    # "?>=n", "?!=n" that is bound to a number in the incoming bindings is a numeric test against the fact and binds "?n".
+    # The real matcher is compared with the faithful model `matchJI`.  Go walks a pattern map in random order and the outcome may
+    # depend on it here (see `ineq_repeated_var_order_dependent`): the model is run on every order of the pairs of every map of
+    # the pattern (field "po"), and every outcome of the real code must be one of the model's; for most cases that is a single one.
+    def is_num(x):
+        return isinstance(x, (int, float)) and not isinstance(x, bool)
+    def has_ineq(x):
+        if isinstance(x, str): return gen.ineq_of(x) is not None
+        if isinstance(x, dict): return any(gen.ineq_of(k) is not None or has_ineq(v) for k, v in x.items())
+        if isinstance(x, list): return any(has_ineq(v) for v in x)
+        return False
+    def outcome(o):
+        return "err:" + str(o.get("err")) if "err" in o else "bss:" + canon(bss_multi(o))
+    nq = 600 if not ck.thorough else 20000
+    qcases = []
+    while len(qcases) < nq:
+        g = gen.ineq_case(rng)
+        g["orders"] = gen.key_orders(g["p"])
+        if g["orders"] is not None:
+            qcases.append(g)
+    qi = run_cases(drv, [{"kind": "match", "p": g["p"], "d": g["d"], "bs": g["bs"], "reps": 5} for g in qcases])
+    qm = run_cases(mdl, [{"kind": "match", "p": o, "po": gen.ordered_enc(o), "d": g["d"], "bs": g["bs"]} for g in qcases for o in g["orders"]])
+    iq = {"ineq_cases": nq, "ineq_satisfied": 0, "ineq_refuted": 0, "ineq_notused": 0, "ineq_target_prebound": 0, "ineq_match": 0,
+          "ineq_multi": 0, "ineq_err": 0, "ineq_order_dependent": 0, "ineq_model_runs": len(qm), "ineq_shapes": {}}
+    pos = 0
+    for g, a in zip(qcases, qi):
+        ms = qm[pos: pos + len(g["orders"])]; pos += len(g["orders"])
+        c = {"kind": "match", "p": g["p"], "d": g["d"], "bs": g["bs"], "reps": 5}
+        ck.count(c)
+        iq["ineq_shapes"][g["shape"]] = iq["ineq_shapes"].get(g["shape"], 0) + 1
+        bad = [m for m in ms if m is None or str(m.get("err", "")).startswith(("input:", "parse:", "unknown", "crash", "badjson"))]
+        if bad:
+            ck.violation("model driver rejected a generated inequality case: %s" % bad[0], {"case": c, "model": bad[0]}, tag="internal"); continue
+        if any(m.get("ineq") != has_ineq(g["p"]) or (m.get("ineq") and m.get("frag")) for m in ms):
+            ck.violation("INTERNAL: the model driver and the generator disagree on which names are inequality variables, or a pattern with one is reported inside the fragment",
+                         {"case": c, "model": ms[0]}, tag="internal"); continue
+        outs = (a or {}).get("outs") or [a or {}]
+        fail = next((o for o in outs if o.get("mutated") or o.get("err") in ("panic", "hang", "crash")), None)
+        if fail:
+            ck.violation("core.Match %s on a pattern with inequality variables" % ("modified its pattern, data or initial bindings" if fail.get("mutated") else fail.get("err")),
+                         {"case": c, "impl": fail}, tag="ineq"); continue
+        allowed = set(outcome(m) for m in ms)
+        if len(allowed) > 1: iq["ineq_order_dependent"] += 1
+        if any(m.get("bss") for m in ms): iq["ineq_match"] += 1
+        if any(len(m.get("bss") or []) > 1 for m in ms): iq["ineq_multi"] += 1
+        if any("err" in m for m in ms): iq["ineq_err"] += 1
+        v, fv = g["slot"]
+        pv = gen.ineq_of(v)
+        if pv and is_num(g["bs"].get(v)) and is_num(fv):
+            iq["ineq_satisfied" if gen.ineq_sat(pv[0], fv, g["bs"][v]) else "ineq_refuted"] += 1
+            if ("?" + pv[1]) in g["bs"]: iq["ineq_target_prebound"] += 1
+        else:
+            iq["ineq_notused"] += 1
+        wrong = next((o for o in outs if outcome(o) not in allowed), None)
+        if wrong is not None:
+            iq["ineq_disagree"] = iq.get("ineq_disagree", 0) + 1
+            if iq["ineq_disagree"] > 5:
+                continue                      # the first five replay files say it all; the total is in the distribution
+            ck.violation("correspondence broken: core.Match and the faithful matcher model `matchJI` disagree on a pattern with inequality variables "
+                         "(bound %s, fact value %s): impl=%s model (over %d key orders)=%s" % (canon(g["bs"].get(v)), canon(fv), canon(wrong)[:250], len(ms), sorted(allowed)[:3]),
+                         {"case": c, "impl": outs, "model": ms, "key_orders": g["orders"]}, tag="ineq")
+    classes.update(iq)
+    ck.cov["distribution"] = dict(classes, **stats)     # the counters added after the main stream included
+    ck.sample({k: qcases[0][k] for k in ("p", "d", "bs")})
+    ck.cov["rule"] += ("; inequality stream: patterns with variables ?<n ?<=n ?>n ?>=n ?!=n (and look-alikes ?< ?<= ?=n ??<n …) at the top, nested, as array "
+                       "variable, inside arrays of maps, repeated, as property variable / under one, next to their target ?n and to ordinary variables; incoming bindings "
+                       "bind them to numbers (0 and negatives included), to non-numbers or not at all, and pre-bind the target to the same / another number / a non-number; "
+                       "facts on both sides of the bound and non-numbers; compared with matchJI over every order of the pattern's map pairs")
+    ck.cov["traces_validated_against_impl"] += nq
+
+    # the witness of `ineq_repeated_var_order_dependent` on the real code: Go's map order cannot be forced, so the call is repeated and every
+    # outcome must be one of the two the model gives for the two key orders (a note, not a finding: repeated inequality variables are
+    # outside the documented fragment)
+    wd, wbs = {"a": 5, "b": 3}, {}
+    wo = [{"a": "?<n", "b": "?<n"}, {"b": "?<n", "a": "?<n"}]
+    wm = run_cases(mdl, [{"kind": "match", "p": o, "po": gen.ordered_enc(o), "d": wd, "bs": wbs} for o in wo])
+    wi = run_cases(drv, [{"kind": "match", "p": wo[0], "d": wd, "bs": wbs, "reps": 20}])[0].get("outs", [])
+    expect = [{"bss": [{"?<n": 5, "?n": 3}]}, {"bss": []}]
+    if [outcome(m) for m in wm] != [outcome(e) for e in expect]:
+        ck.violation("INTERNAL: the model driver does not reproduce the theorem ineq_repeated_var_order_dependent: %s" % canon(wm)[:300],
+                     {"theorem": "ineq_repeated_var_order_dependent", "model": wm}, tag="internal", no_input=True)
+    seen = set(outcome(o) for o in wi)
+    if not wi or not seen <= set(outcome(e) for e in expect):
+        ck.violation("core.Match on the witness of ineq_repeated_var_order_dependent returns something the model gives for neither key order: %s" % sorted(seen)[:3],
+                     {"case": {"kind": "match", "p": wo[0], "d": wd, "bs": wbs, "reps": 20}, "impl": wi, "model": wm}, tag="ineq")
+    else:
+        ck.note("inequality variables: {\"a\":\"?<n\",\"b\":\"?<n\"} over {\"a\":5,\"b\":3} with empty bindings gave %d distinct outcome(s) over 20 calls, each one the model's for a key order "
+                "(theorem ineq_repeated_var_order_dependent; repeated inequality variables are outside the documented fragment): %s" % (len(seen), sorted(seen)))
+
     # known findings: replay the witnesses
     for f in kf:
         w = f["witness"]
